@@ -204,6 +204,15 @@ def gamut_and_jsd(seed):
                 if sup_rel > 1 + 1e-9 or sup_rel <= 0:
                     bad.append(("C18.gamut-superset", w, "<=1", float(sup_rel)))
                 # a flat subset (two chromaticities: a segment) relative to its full-dimensional superset
+                # a dark (all-zero) row has no chromaticity: it must not matter in the cloud nor in the reference
+                X0 = np.vstack([X[:2], np.zeros((1, 3)), X[2:]])
+                sup0 = np.vstack([np.zeros((1, 3)), sup])
+                self0 = dreye.compute_gamut(X0.copy(), relative_to=X0.copy(), metric=metric, seed=3)
+                if abs(self0 - 1) > 1e-9:
+                    bad.append(("C18.gamut-self", dict(dark_row=True, **w), 1.0, float(self0)))
+                sup_rel0 = dreye.compute_gamut(X.copy(), relative_to=sup0.copy(), metric=metric, seed=3)
+                if abs(sup_rel0 - sup_rel) > 1e-9 * (1 + abs(sup_rel)):
+                    bad.append(("C18.gamut-superset", dict(dark_row_in_reference=True, **w), float(sup_rel), float(sup_rel0)))
                 for supset in (sup, X):
                     flat_rel = dreye.compute_gamut(X[:2].copy(), relative_to=supset.copy(), metric=metric, seed=3)
                     if flat_rel > 1 + 1e-9 or flat_rel < 0:
